@@ -1442,7 +1442,14 @@ class Interp:
         if isinstance(container, Opaque):
             return container
         if isinstance(container, dict):
-            return _hashable(item) in container
+            h = _hashable(item)
+            if h in container:
+                return True
+            gs = [m for m in (_key_match(k, h) for k in container) if isinstance(m, Guard)]
+            if gs:
+                # a key with data-dependent parts: it is present exactly when those parts equal the ones of a stored key
+                return gs[0] if len(gs) == 1 else Guard("or", *gs)
+            return False
         if isinstance(container, (list, tuple, set, frozenset)):
             for x in container:
                 r = _pyeq(x, item)
@@ -1699,6 +1706,10 @@ class Interp:
             k = _hashable(idx)
             if k in base:
                 return base[k]
+            cands = [kk for kk in base if isinstance(_key_match(kk, k), Guard)]
+            if cands:
+                # reached only on a path where the data-dependent parts of the key were found equal to those of a stored key
+                return base[cands[-1]]
             raise RaiseSig(ExcVal("KeyError", args=(idx,), node=n))
         if isinstance(base, Record) and base.cls is None:
             k = _hashable(idx)
@@ -1938,6 +1949,37 @@ def _hashable(v):
     if isinstance(v, tuple):
         return tuple(_hashable(x) for x in v)
     return v
+
+
+def _key_match(stored, item):
+    """True: same key.  None: different keys whatever the data.  Guard: the same key exactly when their data-dependent parts are equal."""
+    if isinstance(stored, tuple) and isinstance(item, tuple):
+        if len(stored) != len(item):
+            return None
+        gs = []
+        for x, y in zip(stored, item):
+            m = _key_match(x, y)
+            if m is None:
+                return None
+            if isinstance(m, Guard):
+                gs.append(m)
+        if not gs:
+            return True
+        return gs[0] if len(gs) == 1 else Guard("and", *gs)
+    if isinstance(stored, E) or isinstance(item, E):
+        try:
+            a, b = lift(cell(stored)), lift(cell(item))
+        except Exception:
+            return None
+        if a == b:
+            return True
+        if a.is_const() and b.is_const():
+            return None
+        return Guard("cmp", "Eq", b, a)
+    try:
+        return True if (type(stored) is type(item) or isinstance(stored, (int, float)) and isinstance(item, (int, float))) and stored == item else None
+    except Exception:
+        return None
 
 
 def _pyeq(a, b):
